@@ -57,7 +57,7 @@ def g_bytes(lmax, **kw):
 def g_render(nmax, **kw):
     return grp('render', 'VH_renderTokens', [[n, st] for n in range(1, nmax + 1) for st in ('tight', 'single', 'loose')], cost=20,
                bound='every sequence of <= %d token classes rendered in tight / single / loose spacing' % nmax,
-               symbolic='token classes (forked: the text must be concrete)', asserts=['accept-iff-grammar', 'extract-err-iff-invalid', 'satisfies-err-iff-invalid'], **kw)
+               symbolic='token classes (forked: the text must be concrete)', asserts=['accept-iff-grammar', 'extract-err-iff-invalid', 'satisfies-err-iff-invalid', 'lower-case-operator-rejected'], **kw)
 
 
 def c03(tier, seed):
@@ -70,7 +70,7 @@ def c03(tier, seed):
     # L-SAT trees of all kinds: the expansion code
     for name, jobs, n, m, cost in sat_jobs(tier, seed):
         if name in ('n2', 'n3', 'n4', 'n5'):
-            gs.append(grp('L-SAT/' + name, 'VH_sat', jobs if not q else jobs[seed % 3::3], merge=MS, cost=cost, bound='%d-leaf trees of all kinds' % n, symbolic='allowed entries', asserts=[]))
+            gs.append(grp('L-SAT/' + name, 'VH_sat', jobs if not q else [j for i, j in enumerate(jobs) if i % 3 == seed % 3 or set(j[1]) <= set('RrD')], merge=MS, cost=cost, bound='%d-leaf trees of all kinds' % n, symbolic='allowed entries', asserts=[]))
     return gs
 
 
@@ -99,12 +99,12 @@ def c13(tier, seed):
             for k in (['L' * n, ('RW' * 2)[:n]] if n < 4 else ['L' * n]):
                 tj.append([enc, k, ''.join(str(i) for i in range(n)), 'M', 2 if n < 3 else 3])
     gs.append(grp('pure/trees', 'VH_pureTree', tj, merge=MS, cost=5, bound='valid expressions of <= %d leaves, allowed lists of 2-3 symbolic entries' % (3 if q else 4),
-                  symbolic='allowed entries', asserts=['args-unchanged', 'same-result-twice', 'no-output', 'no-mutable-global-write']))
+                  symbolic='allowed entries', asserts=['args-unchanged', 'same-result-twice', 'no-output']))
     gs.append(grp('pure/pool', 'VH_purePool', [[n] for n in range(0, 3 if q else 4)], merge=['parse', 'inLicenseList', 'getLicenseRange', 'isCompatible'], cost=20,
                   bound='expression and list elements from the 27-string pool, lists of <= %d' % (2 if q else 3), symbolic='expression and list elements (choice variables)',
-                  asserts=['args-unchanged', 'same-result-twice', 'no-output', 'no-mutable-global-write']))
+                  asserts=['args-unchanged', 'same-result-twice', 'no-output']))
     gs.append(grp('pure/bytes', 'VH_pureBytes', [[l] for l in range(0, 3 if q else 4)], cost=20, bound='byte strings of length <= %d' % (2 if q else 3),
-                  symbolic='all bytes', asserts=['args-unchanged', 'same-result-twice', 'no-output', 'no-mutable-global-write']))
+                  symbolic='all bytes', asserts=['args-unchanged', 'same-result-twice', 'no-output']))
     return gs
 
 
@@ -229,9 +229,39 @@ def c11(tier, seed):
                 symbolic='two table positions', asserts=['entry-at-own-position', 'valid-terms-accepted'])]
 
 
+def json_lists():
+    import json, os
+    from core import REPO
+    lic = json.load(open(os.path.join(REPO, 'cmd', 'licenses.json')))['licenses']
+    exc = json.load(open(os.path.join(REPO, 'cmd', 'exceptions.json')))['exceptions']
+    return dict(active=[l['licenseId'] for l in lic if not l.get('isDeprecatedLicenseId')],
+                deprecated=[l['licenseId'] for l in lic if l.get('isDeprecatedLicenseId')],
+                exception=[e['licenseExceptionId'] for e in exc if not e.get('isDeprecatedLicenseId')])
+
+
+def gen_header(fname):
+    import os
+    from core import REPO
+    src = open(os.path.join(REPO, 'spdxexp', 'spdxlicenses', fname)).read()
+    marker = 'return []string{\n'
+    i = src.find(marker)
+    return src[:i + len(marker)] if i >= 0 else src
+
+
 def c12(tier, seed):
     lists = ['active', 'deprecated', 'exception']
-    return [grp('fold-unique-disjoint', 'VH_foldUnique', [[a, b] for i, a in enumerate(lists) for b in lists[i:]], cost=1,
+    jl = json_lists()
+    kmax = 3 if tier == 'quick' else 4
+    gj = [['licenses', k, gen_header('get_licenses.go'), gen_header('get_deprecated.go')] for k in range(0, kmax + 1)] + \
+         [['exceptions', k, gen_header('get_exceptions.go'), ''] for k in range(0, kmax + 1)]
+    return [grp('json-vs-tables', 'VH_jsonAgree', [[w] + jl[w] for w in lists], cost=2,
+                bound='every position of each of the three shipped lists against the list derived from cmd/licenses.json / cmd/exceptions.json',
+                symbolic='list position (the comparison itself is of concrete data; the solver adds little over a diff here)', asserts=['tables-equal-json']),
+            grp('generator', 'VH_generator', gj, pkg='cmd', cost=5,
+                bound='the real generator functions on stub documents of <= %d entries; JSON decoding by the struct tags of cmd\'s types; file header taken from the committed generated files' % kmax,
+                symbolic='ids (1-3 symbolic id characters), isDeprecatedLicenseId and isOsiApproved flags',
+                asserts=['generator-runs', 'generator-files', 'generator-partition-and-format']),
+            grp('fold-unique-disjoint', 'VH_foldUnique', [[a, b] for i, a in enumerate(lists) for b in lists[i:]], cost=1,
                 bound='all pairs of entries of the three lists', symbolic='two list indices', asserts=[]),
             grp('listed', 'VH_listed', [[l] for l in lists], merge=M, cost=10, bound='every entry of each list', symbolic='list index',
                 asserts=['id-accepted', 'exception-after-with', 'exception-after-with-only'])]
@@ -254,7 +284,7 @@ def trees(n, first=0):
 MS = ['parse', 'getLicenseRange', 'inLicenseList', 'isCompatible']
 SAT_FUNCS = MATCH_FUNCS + ['expandOr', 'expandAnd', 'expandOrTerm', 'expandAndTerm', 'appendTerms', 'mergeTerms', 'deepSort', 'sortLicenses',
                            'parseExpression', 'parseAnd', 'parseAtom', 'parseParenthesizedExpression', 'parseLicenseRef', 'parseTokens']
-KINDS_ALL = 'LPWODRl'
+KINDS_ALL = 'LPWODRlQUr'
 
 
 def kind_profiles(n, seed, rich):
@@ -266,11 +296,12 @@ def kind_profiles(n, seed, rich):
         return [a + b for a in KINDS_ALL for b in KINDS_ALL] if rich else [a + b for a in 'LWRD' for b in 'LPRO']
     out.append('R' * n)
     for i in range(n):
-        for k in ('R', 'W') if not rich else 'PWODRl':
+        for k in ('R', 'W', 'Q') if not rich else 'PWODRlQUr':
             out.append('L' * i + k + 'L' * (n - i - 1))
     out.append(''.join('LR'[i % 2] for i in range(n)))
     out.append(''.join('RL'[i % 2] for i in range(n)))
     out.append(''.join('LPWD'[(i + seed) % 4] for i in range(n)))
+    out.append(''.join('RrQO'[(i + seed) % 4] for i in range(n)))
     if rich:
         out.append(''.join('DRLO'[(i + seed) % 4] for i in range(n)))
         out.append(''.join('WWPl'[(i + seed) % 4] for i in range(n)))
@@ -320,11 +351,11 @@ def sat_jobs(tier, seed, for_extract=False):
         t6 = trees(6)
         groups.append(('n6-third', [[e, 'LLLLLL', '012345', 'F', 5, 0, 1] if not for_extract else [e, 'LLLLLL', '012345', 'F'] for e in t6[seed % 3::3]], 6, 5, 30))
     else:
-        add('n3', 3, kind_profiles(3, seed, False), ident_profiles(3, False)[:2], 'FM', 3, 0, 1, 3)
+        add('n3', 3, kind_profiles(3, seed, False), ident_profiles(3, False), 'FM', 3, 1, 1, 3)
         add('n3-all-orders', 3, ['LLL', 'LRL', 'RWL'], ['012', '010'], 'M', 3, 0, 0, 3)
         add('n3-big-universe', 3, ['LLL', 'LPW', 'RLD', 'OlP'], ['012', '011'], 'M', 2, 1, 0, 3)
-        add('n4', 4, ['LLLL', 'RRRR', 'LRLR', 'RLLL', 'LLLR', 'LWPD'], ['0123', '3210'], 'F', 3, 0, 1, 3)
-        add('n5', 5, ['LLLLL'], ['01234'], 'F', 4, 0, 1, 5)
+        add('n4', 4, ['LLLL', 'RRRR', 'LRLR', 'RLLL', 'LLLR', 'LWPD', 'QOrR'], ['0123', '3210', '0101'], 'F', 3, 0, 1, 3)
+        add('n5', 5, ['LLLLL'], ['01234', '01201'], 'F', 4, 0, 1, 5)
     return groups
 
 
@@ -476,7 +507,9 @@ PROPS = {
     'C08': dict(groups=c08, functions=MATCH_FUNCS, outside='contexts other than the listed ones (by C01 the verdict depends on the match atoms only)'),
     'C09': dict(groups=c09, functions=MATCH_FUNCS + ['ExtractLicenses'], outside='operators, reference prefixes, the -only/-or-later suffixes, user reference names (excluded by the statement)'),
     'C11': dict(groups=c11, functions=MATCH_FUNCS, outside='ids whose text does not follow base-version[-qualifier]; families the table does not cover at all'),
-    'C12': dict(groups=c12, functions=MATCH_FUNCS, outside='generator and JSON agreement: see DESIGN.md (not yet built)'),
+    'C12': dict(groups=c12, functions=MATCH_FUNCS + ['cmd.extractLicenseIDs', 'cmd.extractExceptionLicenseIDs'],
+                stubs=['os.Open / json.NewDecoder / Decode: structured stub document, Go fields selected by json tag as encoding/json does', 'os.WriteFile: captured', 'fmt.Println: output effect'],
+                outside='encoding/json itself, file I/O and main()\'s flag handling (stubs); generator runs on more than 3-4 entries (the loops are uniform: argument); JSON-table agreement is a comparison of concrete data'),
     'C03': dict(groups=c03, panics_violate=True, assert_violations=False, functions=PARSE_FUNCS + LEX_FUNCS + ['Satisfies', 'ExtractLicenses', 'ValidateLicenses', 'expand*', 'appendTerms', 'mergeTerms'],
                 outside='token sequences, id runs, byte strings and trees beyond the bounds except through the one-step lexer induction; stack or memory exhaustion on very long or deeply nested text'),
     'C04': dict(groups=c04, functions=PARSE_FUNCS + LEX_FUNCS + ['Satisfies', 'ExtractLicenses', 'ValidateLicenses', 'stringsToNodes'],
